@@ -149,7 +149,7 @@ def mix(scens, rnd, n):
     return out
 
 
-def run_real(ctx, binary, scens, name, timeout_s=20):
+def run_real(ctx, binary, scens, name, timeout_s=15):
     scen = os.path.join(ctx.scratch, "scen-%s.ndjson" % name)
     with open(scen, "w") as f:
         for i, s in enumerate(scens):
@@ -236,7 +236,7 @@ def run(ctx):
                        "each other; every scenario is one real scheduling cycle in a child process; distinct by scenario content")
     ctx.assumptions += [
         "the scheduler is driven in-process exactly as cmd/snapshot-tool does (fake clientsets, real cache/informers/snapshot, default configuration and default server options), one cycle per scenario",
-        "a cycle that has not completed within 20 s (normal: < 0.2 s) and, re-run in a fresh child process, within 60 s is judged non-terminating; the child process is killed",
+        "a cycle that has not completed within 15 s (normal: < 0.2 s) and, re-run in a fresh child process, within 45 s is judged non-terminating; the child process is killed",
         "panics in goroutines the harness does not own (status updater workers) are observed as process death",
         "after a scenario of some input signature timed out, the remaining scenarios with the same signature are not run (each would cost a watchdog period and add no new signature)",
         "the model explains non-termination only for the queue walks; for the other families the real run is the only oracle",
